@@ -42,8 +42,8 @@ func (*c31) ID() string { return "C31" }
 func (*c31) Rule() string {
 	return "non-terminating or blocking commands (while/until/for((;;)) loops, read, read -a, mapfile, select, cat and sleep as external processes, wait on background jobs) placed in every composing context (alone, function, eval, group, subshell, $( ), each pipeline stage, & + wait / wait $!, <( ) read and never read, >( ), EXIT trap, here-document feeding a blocked reader, condition of if/while, nested twice). Standard input is the read end of a pipe nobody writes to. One Runner in three has first run a short program to completion under another context that stays alive (reuse without Reset). The context is cancelled at an instant spread over 0-300 ms after Run starts, or from inside the k-th verif-tag hook call (a goroutine boundary). The exec kill timeout is set to 200 ms. Oracle: Run returns a non-nil error within 200 ms + 5 s of the cancel; 'violated' additionally needs absence of progress: two goroutine dumps one second apart show the goroutine running Run blocked in the same frames, or Run is still executing 35 s later. Slow but returning is inconclusive. Non-trivial: Run was still running when the context was cancelled; distinct: hash of (program, instant)."
 }
-func (*c31) NumCases(tier string) int      { return tierN(tier, 1225, 12250) }
-func (*c31) MinNontrivial(tier string) int { return tierN(tier, 900, 9000) }
+func (*c31) NumCases(tier string) int      { return tierN(tier, 1400, 14000) }
+func (*c31) MinNontrivial(tier string) int { return tierN(tier, 1000, 10000) }
 func (*c31) New() any                      { return &CancelCase{} }
 func (*c31) Race(tier string) bool         { return tier == "thorough" }
 func (*c31) CaseTimeout() time.Duration    { return 200 * time.Second }
@@ -148,6 +148,9 @@ var c31Contexts = []struct{ tag, src string }{
 	{"procsubst-read", "cat <( %s )"},
 	{"procsubst-never-read", ": <( %s )\nwhile :; do :; done"},
 	{"procsubst-out", "echo x > >( %s )\nwait\nwhile :; do :; done"},
+	{"procsubst-out-never-opened", ": >( %s )\nwait"},
+	{"procsubst-in-never-opened", ": <( %s )\nwait"},
+	{"procsubst-refused-command", "nosuchcmd_zz >( %s ) 2>/dev/null\nwait\nwhile :; do :; done"},
 	{"exit-trap", "trap %q EXIT\nexit 3"},
 	{"err-trap", "trap %q ERR\nfalse"},
 	{"heredoc-feeds", "{ %s; } <<EOF\n$(sleep 45)\nEOF"},
